@@ -207,7 +207,7 @@ def main():
         em = None
         if plan.get("engine_m") and not args.only and exit_code != 2 or (plan.get("engine_m") and args.only == "enginem"):
             import enginem
-            em = enginem.run(prop, tier, seed, ws.dir, log)
+            em = enginem.run(prop, tier, seed, ws.dir, log, families=plan["engine_m"])
             for (n, why) in em["inconclusive"]:
                 inconclusive.append((n, why))
             for rp in em["violations"]:
@@ -264,9 +264,12 @@ def main():
             coverage["engine_m"] = {"obligations": len(em["results"]), "discharged": len([r for r in em["results"] if r["verdict"] == "ok"]),
                                     "queries": em["queries"], "solver_s": round(em["solver_s"], 1), "functions_encoded_from_mir": em["functions"],
                                     "results": em["results"][:300],
-                                    "bounds": "all operands a, b of u128 / i128; fractional-bit counts listed in results; products of "
-                                              "64-bit limbs abstracted by shared integers with McCormick envelopes (stage A, cvc5 integers), "
-                                              "recombination/shift/flag stage in 400-bit bit-vectors (stage B, cvc5 and z3)"}
+                                    "families": list(plan["engine_m"]),
+                                    "bounds": "ALL values of the integer operands; one obligation per concrete fractional-bit count / layout "
+                                              "triple (listed in results); 128-bit product: 64-bit limb products abstracted by shared integers with "
+                                              "McCormick envelopes (stage A, cvc5 integers) + recombination/shift/flag in 400-bit bit-vectors "
+                                              "(stage B, cvc5 and z3); widening kernels and to_fixed_helper: bit-vector rendering; primitive "
+                                              "multiply/divide and wide_div.rs::div_rem_from abstracted (arbitrary result): trusted"}
             coverage["evaluations"] += em["queries"]
             coverage["distinct_nontrivial"] += len([r for r in em["results"] if r["verdict"] == "ok"])
             coverage["samples"] = coverage["samples"] + em["samples"][:4]
